@@ -1,6 +1,8 @@
 package props
 
 import (
+	"bytes"
+	"context"
 	"fmt"
 	"net"
 	"net/http"
@@ -64,6 +66,8 @@ func (o *c19Origin) stop() {
 	o.up = false
 }
 
+var c19BigBody = bytes.Repeat([]byte("u"), 1<<20+4096)
+
 type c19Sys struct {
 	n       int
 	backup  int // bit mask
@@ -78,12 +82,12 @@ type c19Sys struct {
 	mask    int
 }
 
-func (s *c19Sys) NumEvents() int { return 3*s.n + 2 }
+func (s *c19Sys) NumEvents() int { return 3*s.n + 3 }
 func (s *c19Sys) Enabled(ev int) bool {
 	if ev == 3*s.n {
 		return s.reloads
 	}
-	if ev == 3*s.n+1 {
+	if ev == 3*s.n+1 || ev == 3*s.n+2 {
 		return s.reloads || s.n == 1 // (same configurations as the reload events, plus every single-server one)
 	}
 	if ev >= s.n && ev < 2*s.n {
@@ -100,6 +104,8 @@ func (s *c19Sys) EventName(ev int) string {
 		return "reload the unchanged configuration"
 	case ev == 3*s.n+1:
 		return "one request whose connection the origin drops without answering (the server stays up)"
+	case ev == 3*s.n+2:
+		return "one request of a client that has hung up (its context is cancelled)"
 	case ev < s.n:
 		return fmt.Sprintf("toggle server %d up/down", ev)
 	case ev < 2*s.n:
@@ -169,7 +175,12 @@ func (s *c19Sys) Key() string {
 }
 
 func (s *c19Sys) Apply(ev int) (string, string, string) {
-	if ev == 3*s.n+1 {
+	if ev == 3*s.n+2 {
+		cctx, cancel := context.WithCancel(context.Background())
+		cancel()
+		s.e.Do(env.Req{URI: "/gone", Rid: "gone", Ctx: cctx})
+		s.e.Events()
+	} else if ev == 3*s.n+1 {
 		// a single failed exchange says nothing about the server's health: the checks still pass
 		s.e.Do(env.Req{Method: "POST", URI: "/crash", Rid: "crash"})
 		s.e.Events()
@@ -212,7 +223,7 @@ func (s *c19Sys) Apply(ev int) (string, string, string) {
 		}
 	}
 	u := upstream.Get("u")
-	if ev != 3*s.n+1 {
+	if ev != 3*s.n+1 && ev != 3*s.n+2 {
 		u.HTTPUpstream.DoHealthCheck() // settle (not after the dropped connection: the next requests follow at once)
 	}
 	// eligible servers
@@ -235,7 +246,11 @@ func (s *c19Sys) Apply(ev int) (string, string, string) {
 	nreq := 3 * s.n
 	for r := 0; r < nreq; r++ {
 		t0 := time.Now()
-		res := s.e.Do(env.Req{Method: "POST", URI: "/x", Rid: "r"})
+		rq := env.Req{Method: "POST", URI: "/x", Rid: "r"}
+		if s.reloads {
+			rq.Body = c19BigBody // uploads above 1 MiB in the configurations that also see reloads
+		}
+		res := s.e.Do(rq)
 		took := time.Since(t0)
 		if len(elig) == 0 {
 			if res.Status < 500 {
